@@ -871,8 +871,16 @@ def run_prop(prop: str, tier: str, replay=None) -> int:
                 cnt["tree_diff_dead_arm_class"] += 1   # dead-arm removal left an undeclared operand variable in the text (listed C11 finding)
             else:
                 tie_broken.append({"program": it["src"], "ast": json.dumps(it["ast"]), "model": d["model"][:3000], "real": d["real"][:3000], "carve_out_classes": sorted(feats), "fail": d.get("fail")})
+        if d["tree-equal"] and (d.get("certified") == "1" or d.get("certified-sem") == "1" or d.get("certified-semx") == "1"):
+            cnt["certified"] += 1
         if d.get("fail"):
-            if feats & NOT_JUDGED:
+            if d["tree-equal"] and (d.get("certified") == "1" or d.get("certified-sem") == "1" or d.get("certified-semx") == "1"):
+                # soundness of the certificates: the model tree IS the real tree and the certificate (evaluated in Lean)
+                # says the program is proved for all states - a failing sampled state means the carve-out is wrong
+                viol.append({"what": "CERTIFIED program (proved for all states) with a failing sampled state: " + d["fail"] +
+                                     " (the carve-out / certificate or the execution model is wrong)", "program": it["src"],
+                             "ast": json.dumps(it["ast"]), "carve_out_classes": sorted(feats), "real_tree": d["real"][:3000]})
+            elif feats & NOT_JUDGED:
                 cnt["not_judged_unsequenced"] += 1
             elif feats & known_feats:
                 for f in feats & known_feats:
